@@ -11,10 +11,14 @@ import (
 	"github.com/DrmagicE/gmqtt"
 	"github.com/DrmagicE/gmqtt/persistence/queue"
 	qmem "github.com/DrmagicE/gmqtt/persistence/queue/mem"
+	qredis "github.com/DrmagicE/gmqtt/persistence/queue/redis"
 	"github.com/DrmagicE/gmqtt/pkg/packets"
 	"github.com/DrmagicE/gmqtt/zzverif/vsched"
 
+	redigo "github.com/gomodule/redigo/redis"
+
 	"verif/explore"
+	"verif/harness"
 	"verif/statekey"
 )
 
@@ -172,7 +176,8 @@ func implList(q *qmem.Queue) []string {
 type c10Sys struct {
 	c    *explore.Ctx
 	q    queue.Store
-	mq   *qmem.Queue
+	list func() []string // contents of the implementation's private list / redis list
+	back string
 	n    *recNotifier
 	ref  *refQueue
 	path []int
@@ -190,11 +195,14 @@ func (s *c10Sys) cas() any {
 	for i, p := range s.path {
 		names[i] = c10OpName(p)
 	}
-	return map[string]any{"max": s.ref.max, "inflight_expiry_s": int(s.ref.inflExp / time.Second), "ops": names, "path": s.path, "backend": "mem"}
+	return map[string]any{"max": s.ref.max, "inflight_expiry_s": int(s.ref.inflExp / time.Second), "ops": names, "path": s.path, "backend": s.back}
 }
 
 func (s *c10Sys) viol(rule, class, want, got string) {
 	s.bad = true
+	if s.back != "mem" {
+		class = s.back + ":" + class
+	}
 	s.c.Violate(rule, class, s.cas(), want, got)
 }
 
@@ -477,7 +485,7 @@ func (s *c10Sys) apply(op int) {
 			got := addDrops[0]
 			newcomerDropped := got.desc == nu.desc()
 			listWrong := false
-			if s.mq != nil {
+			if s.list != nil {
 				var old, exp []string
 				for i, it := range r.items {
 					old = append(old, it.desc())
@@ -488,7 +496,7 @@ func (s *c10Sys) apply(op int) {
 				if victim >= 0 {
 					exp = append(exp, nu.desc())
 				}
-				il := strings.Join(implList(s.mq), ";")
+				il := strings.Join(s.list(), ";")
 				listWrong = il != strings.Join(exp, ";")
 				if newcomerDropped && victim >= 0 {
 					newcomerDropped = il == strings.Join(old, ";") && listWrong
@@ -681,8 +689,8 @@ func (s *c10Sys) check() {
 	r := s.ref
 	s.sumQ += s.n.qDelta
 	s.sumI += s.n.iDelta
-	if s.mq != nil {
-		got := implList(s.mq)
+	if s.list != nil {
+		got := s.list()
 		var want []string
 		for _, it := range r.items {
 			want = append(want, it.desc())
@@ -718,6 +726,10 @@ func (s *c10Sys) check() {
 }
 
 func c10Replay(c *explore.Ctx, max int, inflExp time.Duration, prefix, path []int) (key string, ok bool) {
+	return c10ReplayOn(c, "mem", max, inflExp, prefix, path)
+}
+
+func c10ReplayOn(c *explore.Ctx, backend string, max int, inflExp time.Duration, prefix, path []int) (key string, ok bool) {
 	full := append(append([]int{}, prefix...), path...)
 	ok = true
 	cas := func() any {
@@ -725,16 +737,64 @@ func c10Replay(c *explore.Ctx, max int, inflExp time.Duration, prefix, path []in
 		for i, p := range full {
 			names[i] = c10OpName(p)
 		}
-		return map[string]any{"max": max, "inflight_expiry_s": int(inflExp / time.Second), "ops": names, "path": full, "backend": "mem"}
+		return map[string]any{"max": max, "inflight_expiry_s": int(inflExp / time.Second), "ops": names, "path": full, "backend": backend}
+	}
+	var rd *harness.Respd
+	var db int
+	if backend == "redis" {
+		rd, db = c09DB(c, nil)
+		if rd == nil {
+			return "", false
+		}
+		defer rd.DropDB(db)
 	}
 	good := execBody(c, "C10", cas, func() {
 		n := &recNotifier{}
-		mq, err := qmem.New(qmem.Options{MaxQueuedMsg: max, InflightExpiry: inflExp, ClientID: "c", DefaultNotifier: n})
-		if err != nil {
-			c.Fatal("queue.New: %v", err)
-			return
+		var s *c10Sys
+		var stateOf func() string
+		if backend == "mem" {
+			mq, err := qmem.New(qmem.Options{MaxQueuedMsg: max, InflightExpiry: inflExp, ClientID: "c", DefaultNotifier: n})
+			if err != nil {
+				c.Fatal("queue.New: %v", err)
+				return
+			}
+			s = &c10Sys{c: c, q: mq, list: func() []string { return implList(mq) }, back: backend, n: n, ref: &refQueue{max: max, inflExp: inflExp}, path: full}
+			stateOf = func() string { return statekey.Dump(mq, "Queue.notifier", "Queue.log", "Queue.opts", "Queue.cond") }
+		} else {
+			pool := &redigo.Pool{MaxIdle: 2, Dial: func() (redigo.Conn, error) {
+				cn, err := redigo.Dial("tcp", rd.Addr())
+				if err != nil {
+					return nil, err
+				}
+				if _, err := cn.Do("SELECT", db); err != nil {
+					cn.Close()
+					return nil, err
+				}
+				return cn, nil
+			}}
+			defer pool.Close()
+			rq, err := qredis.New(qredis.Options{MaxQueuedMsg: max, InflightExpiry: inflExp, ClientID: "c", DefaultNotifier: n, Pool: pool})
+			if err != nil {
+				c.Fatal("queue.New: %v", err)
+				return
+			}
+			list := func() []string {
+				var out []string
+				for _, b := range rd.List(db, "queue:c") {
+					e := &queue.Elem{}
+					if err := e.Decode(b); err != nil {
+						out = append(out, "undecodable:"+err.Error())
+					} else {
+						out = append(out, elemDesc(e))
+					}
+				}
+				return out
+			}
+			s = &c10Sys{c: c, q: rq, list: list, back: backend, n: n, ref: &refQueue{max: max, inflExp: inflExp}, path: full}
+			stateOf = func() string {
+				return statekey.Dump(rq, "Queue.notifier", "Queue.log", "Queue.pool", "Queue.cond") + "|" + strings.Join(list(), ";")
+			}
 		}
-		s := &c10Sys{c: c, q: mq, mq: mq, n: n, ref: &refQueue{max: max, inflExp: inflExp}, path: full}
 		for i, op := range full {
 			if !s.enabled(op) {
 				if i == len(full)-1 {
@@ -751,10 +811,10 @@ func c10Replay(c *explore.Ctx, max int, inflExp time.Duration, prefix, path []in
 				return
 			}
 			if verbose {
-				fmt.Printf("  %-28s impl=%v\n      ref=%s sumQ=%d sumI=%d\n", c10OpName(op), implList(mq), s.ref.dump(), s.sumQ, s.sumI)
+				fmt.Printf("  %-28s impl=%v\n      ref=%s sumQ=%d sumI=%d\n", c10OpName(op), s.list(), s.ref.dump(), s.sumQ, s.sumI)
 			}
 		}
-		key = statekey.Dump(mq, "Queue.notifier", "Queue.log", "Queue.opts", "Queue.cond") + "|" + s.ref.dump()
+		key = stateOf() + "|" + s.ref.dump()
 	})
 	if !good {
 		ok = false
@@ -764,11 +824,15 @@ func c10Replay(c *explore.Ctx, max int, inflExp time.Duration, prefix, path []in
 
 func runC10(c *explore.Ctx) {
 	c.Level = "model_checking"
-	c.Rule = "E1: explicit-state BFS (depth-bounded; virtual clock) over Add(6 variants)/Read(1|2 ids)/ReadInflight(1|2)/Remove/Replace/Init(clean|resume)/Close/Advance(6s|31s) on the real mem queue for max in {1,2,3} x inflight expiry in {0,30s}; callers respect the documented preconditions (ReadInflight drained before Read, Init only after Close); a blocking Read is a thread whose release by Add/Close is part of the state. After every op: private list contents == reference list (conservation), length <= max, outputs explained by the reference (FIFO, ids, expired/oversize never returned, replay after resume, drop ladder), sum of notifier deltas == contents."
+	c.Rule = "E1: explicit-state BFS (depth-bounded; virtual clock) over Add(6 variants)/Read(1|2 ids)/ReadInflight(1|2)/Remove/Replace/Init(clean|resume)/Close/Advance(6s|31s) on the real mem queue for max in {1,2,3} x inflight expiry in {0,30s}, and on the real redis queue (redigo against the in-process RESP server; max in {1,2}, thorough also 3; the redis list is read from the server after every op); callers respect the documented preconditions (ReadInflight drained before Read, Init only after Close); a blocking Read is a thread whose release by Add/Close is part of the state. After every op: private list / redis list contents == reference list (conservation), length <= max, outputs explained by the reference (FIFO, ids, expired/oversize never returned, replay after resume, drop ladder), sum of notifier deltas == contents."
 	c.Trusted = []string{"vsched virtual clock / Cond semantics", "statekey.Dump", "reference list model written from the property statement and the documented inflight_expiry semantics"}
 	c.Assumptions = []string{"queue counters are compared from the last Init(clean) on (Init(clean) discards contents without notifier deltas; the broker resets the statistics of a terminated session separately)"}
 	if rc := replayCase(c); rc != nil {
-		c10Replay(c, int(rc["max"].(float64)), time.Duration(rc["inflight_expiry_s"].(float64))*time.Second, nil, intsOf(rc["path"]))
+		back, _ := rc["backend"].(string)
+		if back == "" {
+			back = "mem"
+		}
+		c10ReplayOn(c, back, int(rc["max"].(float64)), time.Duration(rc["inflight_expiry_s"].(float64))*time.Second, nil, intsOf(rc["path"]))
 		return
 	}
 	depth := 6
@@ -790,44 +854,69 @@ func runC10(c *explore.Ctx) {
 	type unit struct {
 		cfg    cfg
 		prefix []int
+		back   string
 	}
 	var units []unit
+	directed := [][]int{
+		{opInitClean, 2, opRI1, opRead1, opReplace, opClose, opInitResume},
+		{opInitClean, 1, 1, opRI1, opRead2, opClose, opInitResume},
+		{opInitClean, 1, opRI1, opRead1, opAdv31, opClose, opInitResume},
+		{opInitClean, 1, 2, opRI1, opRead1, opClose, opInitResume},
+		{opInitClean, 3, 1, opRI1, opRead2, opAdv6, opClose, opInitResume},
+		{opInitClean, 1, 2, 1, opRI1, opRead2, opClose},
+	}
+	// redis backend: same alphabet, reference and oracles; the "private list" is the
+	// redis list itself (read from the RESP server's memory after every op)
+	rdepth := depth
+	if !c.Quick() {
+		rdepth = depth - 1
+	}
+	c.Extra["depth_redis"] = rdepth
+	for _, cf := range cfgs {
+		if cf.max == 3 && c.Quick() {
+			continue
+		}
+		for a := 0; a < c10NumOps; a++ {
+			units = append(units, unit{cf, []int{opInitClean, a}, "redis"})
+		}
+		for _, p := range directed {
+			units = append(units, unit{cf, p, "redis"})
+		}
+	}
 	for _, cf := range cfgs {
 		for a := 0; a < c10NumOps; a++ {
-			units = append(units, unit{cf, []int{opInitClean, a}})
+			units = append(units, unit{cf, []int{opInitClean, a}, "mem"})
 		}
 		// histories that start with Adds on a never-initialised queue
-		units = append(units, unit{cf, []int{1}}, unit{cf, []int{2}})
+		units = append(units, unit{cf, []int{1}, "mem"}, unit{cf, []int{2}, "mem"})
 		// directed non-initial states (resumed sessions with in-flight entries), explored
 		// breadth-first from there
-		for _, p := range [][]int{
-			{opInitClean, 2, opRI1, opRead1, opReplace, opClose, opInitResume},
-			{opInitClean, 1, 1, opRI1, opRead2, opClose, opInitResume},
-			{opInitClean, 1, opRI1, opRead1, opAdv31, opClose, opInitResume},
-			{opInitClean, 1, 2, opRI1, opRead1, opClose, opInitResume},
-			{opInitClean, 3, 1, opRI1, opRead2, opAdv6, opClose, opInitResume},
-			{opInitClean, 1, 2, 1, opRI1, opRead2, opClose},
-		} {
-			units = append(units, unit{cf, p})
+		for _, p := range directed {
+			units = append(units, unit{cf, p, "mem"})
 		}
 	}
 	c.Units("queue-bfs", len(units), func(u int) {
 		un := units[u]
-		if _, ok := c10Replay(c, un.cfg.max, un.cfg.infl, nil, un.prefix); !ok {
+		if _, ok := c10ReplayOn(c, un.back, un.cfg.max, un.cfg.infl, nil, un.prefix); !ok {
 			return
 		}
-		d := depth - len(un.prefix)
-		if len(un.prefix) > 2 {
-			d = depth - 3
+		dd := depth
+		if un.back == "redis" {
+			dd = rdepth
 		}
-		res := explore.BFS(c, explore.BFSConfig{Name: "memqueue", NumOps: c10NumOps, MaxDepth: d, MaxStates: 2000000, Replay: func(path []int) (string, bool) {
-			return c10Replay(c, un.cfg.max, un.cfg.infl, un.prefix, path)
+		d := dd - len(un.prefix)
+		if len(un.prefix) > 2 {
+			d = dd - 3
+		}
+		res := explore.BFS(c, explore.BFSConfig{Name: un.back + "queue", NumOps: c10NumOps, MaxDepth: d, MaxStates: 2000000, Replay: func(path []int) (string, bool) {
+			return c10ReplayOn(c, un.back, un.cfg.max, un.cfg.infl, un.prefix, path)
 		}})
+		c.Count("states_"+un.back, int64(res.States))
 		c.Count("states", int64(res.States))
 		c.Count("transitions", int64(res.Transitions))
 		c.Count("traces_validated_against_impl", int64(res.Transitions))
 		if u%37 == 0 {
-			c.Sample(map[string]any{"max": un.cfg.max, "inflight_expiry_s": int(un.cfg.infl / time.Second), "prefix": []string{c10OpName(un.prefix[0])}, "states": res.States, "transitions": res.Transitions, "depth": res.Depth})
+			c.Sample(map[string]any{"backend": un.back, "max": un.cfg.max, "inflight_expiry_s": int(un.cfg.infl / time.Second), "prefix": []string{c10OpName(un.prefix[0])}, "states": res.States, "transitions": res.Transitions, "depth": res.Depth})
 		}
 	})
 }
